@@ -15,13 +15,19 @@ type modset struct {
 	heap map[string]Sort
 	all  bool
 	pfx  []string
+	cbs  map[*types.Var]bool // callback parameters invoked or handed over in the region
 }
 
-func newModset() *modset { return &modset{vars: map[*types.Var]bool{}, heap: map[string]Sort{}} }
+func newModset() *modset {
+	return &modset{vars: map[*types.Var]bool{}, heap: map[string]Sort{}, cbs: map[*types.Var]bool{}}
+}
 
 func (m *modset) union(o *modset) {
 	for v := range o.vars {
 		m.vars[v] = true
+	}
+	for v := range o.cbs {
+		m.cbs[v] = true
 	}
 	for k, s := range o.heap {
 		m.heap[k] = s
@@ -42,6 +48,9 @@ func (p *Proc) modifiedBy(n ast.Node) *modset {
 	out := newModset()
 	out.all = m.all
 	out.pfx = append(out.pfx, m.pfx...)
+	for v := range m.cbs {
+		out.cbs[v] = true
+	}
 	for k, s := range m.heap {
 		out.heap[k] = s
 	}
@@ -149,6 +158,14 @@ func (p *Proc) modScan(fi *FuncInfo, info *types.Info, n ast.Node, depth int) *m
 				if defersParam(ct, sig.Params().At(i).Name()) {
 					skip[fl] = true
 				}
+			}
+		}
+		return true
+	})
+	ast.Inspect(n, func(nd ast.Node) bool {
+		if id, ok := nd.(*ast.Ident); ok {
+			if v, ok := info.Uses[id].(*types.Var); ok && p.cbParams[v.Name()] == v {
+				m.cbs[v] = true
 			}
 		}
 		return true
@@ -509,6 +526,22 @@ func (p *Proc) havocMod(st *State, m *modset, n ast.Node) {
 		}
 		st.vars[v] = nv.T
 		p.wfAssume(st, nv)
+	}
+	// resolution counts of callback parameters the region invokes or hands on: forgotten, but
+	// they only grow (an invariant over resolved(cb) can pin them down)
+	var cbs []*types.Var
+	for v := range m.cbs {
+		cbs = append(cbs, v)
+	}
+	sort.Slice(cbs, func(i, j int) bool { return cbs[i].Pos() < cbs[j].Pos() })
+	for _, v := range cbs {
+		old := st.resolved[v]
+		if old == nil {
+			old = IntLit(0)
+		}
+		nv := p.freshConst("h_resolved_"+v.Name(), SInt)
+		st.assume(Ge(nv, old))
+		st.resolved[v] = nv
 	}
 	var ks []string
 	for k := range m.heap {
